@@ -220,7 +220,7 @@ def campaign_relative(ck: Check, depth: int, n_random: int) -> None:
             from_, import_ = left, right
             if ex:
                 from_, import_ = exact_import(from_, import_, "Cls")
-        if ci:
+        if ci and not f"{dotted(r)}.".startswith(f"{dotted(c)}."):
             from_ = "." + from_
         if rep[0] != "ok":
             ck.disagree(camp, {"fn": "emitted", "cur": c, "ref": r, "init": ci, "exact": ex, "base": ib}, replies[idx], (from_, import_))
@@ -817,7 +817,7 @@ CORPUS = [
     {"defs": {"a.X": [], "b.X": ["a.X"], "c.K": ["a.X", "b.X"]}, "bases": {}, "opts": {"use_exact_imports": True}, "model": "dataclasses.dataclass"},
     {"defs": {"a.b.c.M": [], "d.e.X": ["a.b.c.M"]}, "bases": {}, "opts": {}, "model": "pydantic_v2.BaseModel"},
     {"defs": {"a.b.c.M": [], "d.e.X": ["a.b.c.M"]}, "bases": {}, "opts": {"treat_dot_as_module": True}, "model": "typing.TypedDict"},
-    # D8 and relatives
+    # the former D8 witness (repaired in /repo by dc968b7) and its relatives
     {"defs": {"a.b.M": ["a.b.d.X"], "a.b.d.X": []}, "bases": {}, "opts": {}, "model": "pydantic_v2.BaseModel"},
     {"defs": {"a.b.M": [], "a.X": []}, "bases": {"a.b.M": "a.X"}, "opts": {}, "model": "pydantic_v2.BaseModel"},
     {"defs": {"b.c.d.M": [], "a.y.z.N": [], "b.K": ["b.c.d.M"]}, "bases": {}, "opts": {}, "model": "pydantic_v2.BaseModel"},
@@ -929,6 +929,7 @@ def run(ck: Check) -> None:
         "Python's relative-import rule is modelled by Dcg/Py/Import.lean (validated in this run against importlib.util.resolve_name and real imports)",
         "module paths of dotted definition names consist of identifiers (FieldNameResolver.get_valid_name, property C07); directory names of input trees are outside the file-map model (oracle only)",
         "the order of module paths is the one Python's sorted(key=(len, path), reverse=True) yields (the harness sorts; the theorems only use deepest-first)",
+        "the condition of the package-file extra dot is modelled on name lists (importer path is a prefix of the importee path); the code tests it on dotted strings with a trailing '.', which is the same for names without dots",
         "alias allocation (import … as …) is not modelled: import lines are compared up to the alias, uses are checked by the oracle",
     ]
     campaign_resolve(ck, 3 if quick else 4)
